@@ -201,6 +201,33 @@ def R2_constants_validated(run):
     ok = len(cs) == 1 and acc_chain(cs[0][2][2]) == "whirlpool.tick_spacing" and cfg.must_pass_call(h, cs[0][0])[0]
     run.check("R2", "merge-validated", ok, "set_adaptive_fee_constants does not validate the merged constants against the pool's tick spacing", loc=h.loc(), detail="initialize_adaptive_fee_constants(merged, whirlpool.tick_spacing)?")
     rs = calls_to(h, ends("Oracle::reset_adaptive_fee_variables"))
+    # ... and the reset clears everything, the two timestamps included (a kept last-update time makes the first swap after a change
+    # of constants a high-frequency one, which does not re-anchor the cleared reference)
+    rf = facts.need_fn("state::oracle::Oracle::reset_adaptive_fee_variables")
+    run.touch(rf)
+    pvr = prov_of(rf)
+    wsr = [w for w in writes.writers_of(facts, "state::oracle::Oracle", "adaptive_fee_variables") if w["fn"] is rf and w["kind"] == "assign"]
+
+    def all_default(v):
+        v = strip(v)
+        if v[0] == "call" and v[1].endswith("::default") and not v[2]:
+            return True
+        if v[0] == "const":
+            return v[1] in (0, False)
+        if v[0] == "field":
+            return all_default(v[1])
+        if v[0] == "agg":
+            return all(all_default(x) for _, x in v[3])
+        if v[0] in ("array",):
+            return all(all_default(x) for x in v[1])
+        if v[0] == "repeat":
+            return all_default(v[1])
+        return False
+    okr = len(wsr) >= 1 and all(w["last"] for w in wsr) and not cfg.success_reach(rf, 0, cut_blocks=[w["block"] for w in wsr])
+    for w in wsr:
+        v = pvr._rvalue(w["rv"], w["block"], w["stmt"], 0) if "callres" not in w["rv"] else pvr.local(w["rv"]["callres"]["d"]["l"], w["block"], w["stmt"] + 1)
+        okr = okr and all(all_default(x) for x in leaves(v))
+    run.check("R2", "reset-clears-all", okr, "reset_adaptive_fee_variables does not store AdaptiveFeeVariables::default() as a whole", loc=rf.loc(), detail="adaptive_fee_variables := default (all seven fields)")
     run.check("R2", "variables-reset-on-change", len(rs) == 1 and bool(cs) and cfg.dominates(h, cs[0][0], rs[0][0]) and not cfg.success_reach(h, 0, cut_blocks=[rs[0][0]]),
               "changing the constants does not unconditionally reset the adaptive-fee variables (stale variables can exceed the new maximum)", loc=h.loc(), detail="reset on every success path, after validation")
 
@@ -584,7 +611,11 @@ def R6_stepping(run):
     run.check("R6", "advance-by-skip-flag", ok, "the skip flag of get_bounded_sqrt_price_target does not select advance_tick_group (false) / advance_tick_group_after_skip()? (true) exclusively", loc=sw.loc(),
               detail="!skipped => advance_tick_group; skipped => advance_tick_group_after_skip?")
     ka = skp[0][2]
-    ok = m.is_var(ka[1], "price") and mentions(m.expand(ka[2]), lambda s: s[0] == "call" and s[1].endswith("sqrt_price_from_tick_index")) and mentions(ka[3], lambda s: s[0] == "call" and s[1].endswith("get_next_initialized_tick_index"))
+    # the second argument is the next tick's own price - sqrt_price_from_tick_index(next_tick_index) and nothing around it (the
+    # step target is that price clamped by the caller's limit: with a limit inside a skipped stretch the two differ)
+    nx = strip(m.expand(ka[2]))
+    ok = m.is_var(ka[1], "price") and nx[0] == "call" and nx[1].endswith("sqrt_price_from_tick_index") and len(nx[2]) == 1 and \
+        strip(m.expand(nx[2][0])) == strip(m.expand(ka[3])) and mentions(ka[3], lambda s: s[0] == "call" and s[1].endswith("get_next_initialized_tick_index"))
     run.check("R6", "skip-advance-inputs", ok, "advance_tick_group_after_skip is not given (current price, next tick's price, next tick index)", loc=sw.loc(skp[0][1]["l"]), detail="(price, next_tick_sqrt_price, next_tick_index)")
     g = facts.need_fn(FRM + "advance_tick_group")
     run.touch(g)
